@@ -133,7 +133,9 @@ def testResults : List Int := [0, -XMP_ERROR_FORMAT, -XMP_ERROR_DEPACK, -XMP_ERR
 def Spec.smixPlay (o : Obs) (nins ins note vol chn : Int) : Cell :=
   { stateErr := o.st < XMP_STATE_PLAYING,
     invalid := chn < 0 || chn ≥ o.sxChn || ins < 0 || ins ≥ nins,
-    mayInvalid := !inRange note 0 255 || !inRange vol 0 255,     -- must fit the event's byte fields
+    -- documented: "0 to the maximum volume value used by the current module"; whatever that maximum is, the
+    -- value must fit the byte fields of `struct xmp_event` (volume is stored as vol + 1)
+    mayInvalid := !inRange note 0 255 || !inRange vol 0 254,
     succ := fun r o' => unchanged o r 0 o' }
 
 def Spec.cell (o : Obs) (c : Call) (e : Env) : Cell :=
